@@ -99,7 +99,14 @@ pub(crate) fn parse_chunk(data: &[u8]) -> Result<ColorPalette> {
         )));
     }
 
-    let count = last_color_index - first_color_index + 1;
+    let count = (last_color_index - first_color_index)
+        .checked_add(1)
+        .ok_or_else(|| {
+            AsepriteParseError::InvalidInput(format!(
+                "Bad palette color indices: first={} last={}",
+                first_color_index, last_color_index,
+            ))
+        })?;
     //let mut entries = Vec::with_capacity(count as usize);
     let mut entries = IntMap::default();
 
